@@ -77,20 +77,21 @@ Fixpoint retry_list (ds : list doc) (os : list outcome) : list doc :=      (* :2
   | _, _ => []
   end.
 
-(* one doBulkIndex + what retryBulkIndex / handleErrorResponses start next: (answers given, calls started) *)
-Definition handle (cfg : ecfg) (sc : script) (t : task) : list (Z * answer) * list task :=
+(* one doBulkIndex + what retryBulkIndex / handleErrorResponses start next: (answers given, call started) *)
+Definition opt_list {A} (o : option A) : list A := match o with Some x => [x] | None => [] end.
+Definition handle (cfg : ecfg) (sc : script) (t : task) : list (Z * answer) * option task :=
   match t_docs t with
-  | [] => ([], [])                                                                        (* :158-161 *)
+  | [] => ([], None)                                                                      (* :158-161 *)
   | _ =>
     let os := outcomes sc t in
     if existsb is_whole os
-    then ([], [ {| t_docs := t_docs t; t_n := t_n t; t_send := S (t_send t) |} ])         (* :182-186 and :134-149: same batch, same retryCount *)
+    then ([], Some {| t_docs := t_docs t; t_n := t_n t; t_send := S (t_send t) |})       (* :182-186 and :134-149: same batch, same retryCount *)
     else if forallb is_ok os
-    then (map (fun d => (d_id d, ASuccess)) (t_docs t), [])                               (* :194-199 *)
+    then (map (fun d => (d_id d, ASuccess)) (t_docs t), None)                             (* :194-199 *)
     else
       let ans := item_answers cfg t (t_docs t) os in
-      if (t_n t =? max_retries cfg)%nat then (ans, [])                                    (* :273-276 ErrMaxRetries *)
-      else (ans, [ {| t_docs := retry_list (t_docs t) os; t_n := S (t_n t); t_send := S (t_send t) |} ])   (* :278 *)
+      if (t_n t =? max_retries cfg)%nat then (ans, None)                                  (* :273-276 ErrMaxRetries *)
+      else (ans, Some {| t_docs := retry_list (t_docs t) os; t_n := S (t_n t); t_send := S (t_send t) |})   (* :278 *)
   end.
 
 (* what a bulk request that is actually sent looks like to Elasticsearch *)
@@ -109,7 +110,7 @@ Fixpoint lineage (fuel : nat) (cfg : ecfg) (sc : script) (t : task) : trace :=
   | S f =>
       let '(ans, next) := handle cfg sc t in
       tr_app {| tr_answers := ans; tr_calls := call_of t; tr_fuel_out := false |}
-             (fold_right (fun t' acc => tr_app (lineage f cfg sc t') acc) tr_empty next)
+             (match next with Some t' => lineage f cfg sc t' | None => tr_empty end)
   end.
 
 (* ---------- the batcher (elastic_index_client.go:91-126) ---------- *)
@@ -223,7 +224,7 @@ Definition mstep (cfg : ecfg) (sc : script) (s : mstate) (a : action) : option m
       match nth_error (m_running s) i with
       | Some (t, false) =>
           let '(ans, next) := handle cfg sc t in
-          Some {| m_tokens := m_tokens s; m_waiting := m_waiting s ++ next; m_running := set_nth i (t, true) (m_running s);
+          Some {| m_tokens := m_tokens s; m_waiting := m_waiting s ++ opt_list next; m_running := set_nth i (t, true) (m_running s);
                   m_batcher := m_batcher s; m_answers := m_answers s ++ ans; m_calls := m_calls s;
                   m_stopped := m_stopped s |}
       | _ => None
